@@ -602,9 +602,12 @@ class Array(metaclass=MetaArray):
     def _update(self, value):
         if is_integer(value):
             ll = value
+            same = len(self) == ll
         else:
             ll = len(value)
-        if len(self) == ll:
+            shape = get_shape_from_array(value, len(self._shape))
+            same = tuple(shape) == tuple(self._shape)
+        if same:
             self.__class__._to_buffer(self._buffer, self._offset, value)
         else:
             if is_integer(value):
